@@ -261,6 +261,14 @@ func (res *pbResponse) MarshalTo(buf []byte) (int, error) {
 		}
 		offset += n
 	}
+	if offset == 0 {
+		// A response with sequence number 0, no error and no reply would be an
+		// empty message, which some transports (ws) silently drop: encode the
+		// sequence number explicitly.
+		buf[0] = 1<<3 | 0
+		buf[1] = 0
+		offset = 2
+	}
 	return int(offset), nil
 }
 
